@@ -308,7 +308,9 @@ def cf5(x):
 def _cf67_constraints(x, amp):
     n = len(x)
     x1 = X(x, 1)
-    u = 0.5 * (1.0 - x1) - (1.0 - x1) ** 2
+    # 0.5 (1 - x1) - (1 - x1)^2 of the report, written in the algebraically identical factored form: the published form cancels
+    # catastrophically next to x1 = 0.5 and sqrt|u| amplifies the 1e-17 rounding residue to 5e-9 (above the 1e-9 tolerance)
+    u = (1.0 - x1) * (x1 - 0.5)
     w = 0.25 * math.sqrt(1.0 - x1) - 0.5 * (1.0 - x1)
     c1 = X(x, 2) - amp * math.sin(6.0 * PI * x1 + 2.0 * PI / n) - _sgn(u) * math.sqrt(abs(u))
     c2 = X(x, 4) - amp * math.sin(6.0 * PI * x1 + 4.0 * PI / n) - _sgn(w) * math.sqrt(abs(w))
